@@ -55,8 +55,10 @@ def add(U):
     # ---- bang operators
     ens('Lexer::bangoperator',
         ('final(self).ci() == scan(%s, %s, p_alpha())' % (CH, CI), 'C14', 'operator name = maximal run of letters'),
-        ('match bang_kind(%s.subrange(%s as int, final(self).ci() as int)) { Some(k) => ret == k, None => ret == TokenKind::Error }' % (CH, CI),
-         'C14 C20', 'bang operator table'))
+        ('bang_kind(%s.subrange(%s as int, final(self).ci() as int)) is Some ==> ret == bang_kind(%s.subrange(%s as int, final(self).ci() as int)).unwrap()' % (CH, CI, CH, CI),
+         'C14 C20', 'bang operator table: every operator of the reference gets its own kind'),
+        ('bang_kind(%s.subrange(%s as int, final(self).ci() as int)) is None ==> ret == TokenKind::Error' % (CH, CI),
+         'C20', 'bang operator table: the lexer accepts no operator outside the table the completion list is checked against'))
     pro('Lexer::bangoperator', fnfacts('char::is_ascii_alphabetic', '&char', 'is_alpha(c)') + ' proof { lemma_boff_mono(self.chars()); }')
     F[('lexer.rs', 'Lexer::bangoperator')].body_proofs.append((r'match ident \{', 'proof { lemma_scan_unique(self.chars(), old(self).ci(), self.ci(), p_alpha()); assert(ident@ == self.chars().subrange(old(self).ci() as int, self.ci() as int)); }'))
     # ---- var name
